@@ -260,6 +260,7 @@ func run(c Case) (fs []failure, inconc string, facts map[string]bool, hist any) 
 	var all []ex
 	redirects, tryagains := 0, 0
 	redirected := map[string]bool{}
+	tryagained := map[string]bool{}
 	var reqLog []string
 	for _, nd := range cs.Nodes {
 		lg, rq := nd.SnapshotLog()
@@ -282,6 +283,11 @@ func run(c Case) (fs []failure, inconc string, facts map[string]bool, hist any) 
 			}
 			if strings.HasPrefix(r.Reply, "-TRYAGAIN") {
 				tryagains++
+				if r.Cmd == "mset" {
+					for i := 0; i+1 < len(r.Args); i += 2 {
+						tryagained[string(r.Args[i])+"\x00"+string(r.Args[i+1])] = true
+					}
+				}
 			}
 			reqLog = append(reqLog, fmt.Sprintf("%06d %s %s %v -> %s", r.Seq, nd.Addr(), r.Cmd, r.ArgsS, r.Reply))
 		}
@@ -329,9 +335,11 @@ func run(c Case) (fs []failure, inconc string, facts map[string]bool, hist any) 
 						// tool's redirection handling, which re-executes the redirected commands of a node's replies one by one in reply order
 						sig = "per-key-order-skips:redirected-commands-reordered"
 					}
-				} else if tryagains > 0 && !c.Txn {
+				} else if tryagains > 0 && tryagained[k+"\x00"+src[prev+1]] {
 					// known finding: a multi-key command answered TRYAGAIN (one of its keys already migrated) while a later single-key
-					// command of the same pipelined batch on the key that has not moved yet is executed by the same node
+					// command of the same pipelined batch on the key that has not moved yet is executed by the same node. A cluster batch is
+					// flushed to a node as plain commands in the transactional configuration too (thorough tier, 1 case in 12 404), so the
+					// rule does not depend on it: it is the OVERTAKEN write that must have been answered TRYAGAIN
 					sig = "per-key-order-skips:tryagain-in-batch"
 				}
 				fs = append(fs, failure{sig, fmt.Sprintf("key %q: the target applied %v; write #%d (%s) took effect although #%d (%s) had not (source order %v)", k, obs, j, v, prev+1, src[prev+1], src)})
